@@ -81,12 +81,12 @@ READER = by("mappyfile.transformer.MapfileTransformer.", "mappyfile.parser.Parse
 PLANS = {
  "C01": dict(level="other", pred=by(PP + "format_value", "mappyfile.quoter.", "lemma:Lemma", TR + "attr", TR + "string", TR + "int", TR + "float", TR + "true", TR + "false",
                                     TR + "hexcolor", TR + "clean_string", TR + "expression", PP + "_format", PP + "process_attribute"),
-             b=["b_roundtrip"], canaries=["free_string_bare", "enum_not_upper", "hexcolor_case"],
+             b=["b_roundtrip", "b_numbers"], canaries=["free_string_bare", "enum_not_upper", "hexcolor_case"],
              explanation="component contracts (printer refines spec.render per slot; reader callbacks refine the text-to-dict contract; quoting round-trip lemmas) are PROVED; that Lark's contextual lexer tokenises the printed text as intended is NOT expressible as a contract over repository code and is covered by the bounded seam loads(dumps(loads(t))) over the corpus and the complete slot vocabulary"),
- "C02": dict(level="proof", pred=READER, b=["b_text_to_dict"], canaries=["singleton_plural", "key_not_lowered", "hexcolor_case"],
+ "C02": dict(level="proof", pred=READER, b=["b_text_to_dict", "b_numbers"], canaries=["singleton_plural", "key_not_lowered", "hexcolor_case"],
              explanation="every transformer callback verified against the documented text-to-dict contract for the argument shapes larkshape derives from the compiled grammar; the block fold (composite) for one arbitrary item and an arbitrary accumulator; Lark's tree construction assumed and validated by the bounded text-to-dict seam"),
  "C04": dict(level="proof", pred=by(PP + "format_value", "mappyfile.quoter.", "lemma:Lemma", TR + "expression", TR + "comparison", TR + "and_test", TR + "or_test", TR + "not_expression", PP + "pprint", PP + "_format", PP + "process_dict", PP + "process_key_dict", PP + "process_config_dict", PP + "process_repeated_list", PP + "process_projection", PP + "process_attribute"),
-             e=["c12_tables"], b=["b_idempotent", "b_escape_idempotent"], canaries=["enum_not_upper", "expr_never_wraps"],
+             e=["c12_tables"], b=["b_idempotent", "b_escape_idempotent", "b_numbers"], canaries=["enum_not_upper", "expr_never_wraps"],
              explanation="printer-side clauses (normal-form value text per slot, no parentheses piled up on re-parsing, determinism by purity: no time/random/id/hash, no module state) proved; idempotence of escape_quotes (replace chains: both solvers give up) and the lexer seam are bounded"),
  "C05": dict(level="other", pred=by(TR + "key_name", TR + "clean_string", TR + "attr", TR + "composite_type", "mappyfile.parser.Parser.parse", "mappyfile.quoter.Quoter.remove_quotes", "lemma:LemmaRoundTrip", TR + "process_value_pairs", TR + "config"),
              e=["c05_tables"], b=["b_surface"], canaries=["retype_case", "key_not_lowered"],
@@ -101,7 +101,7 @@ PLANS = {
              explanation="the repository's plumbing around jsonschema is proved (lower-cased copy, one message per error in order, message names keyword/object, total, root-type schema, list = per-root); 'conforms to the schema' itself is jsonschema's verdict (assumed, validated by fault injection)"),
  "C08": dict(level="proof", pred=by(TR + "create_position_dict", TR + "flatten", TR + "attr", TR + "composite", TR + "process_value_pairs", TR + "config", TR + "int", TR + "float", TR + "string",
                                     "mappyfile.validator.Validator.create_message", "mappyfile.cli.validate", "mappyfile.parser.Parser.load_includes", "mappyfile.parser.Parser.parse"),
-             b=["b_positions"], canaries=["position_line", "message_key"],
+             e=["c08_tables"], b=["b_positions"], canaries=["position_line", "message_key"],
              explanation="position records are built from the tokens' line/column (never rewritten by value callbacks), hoisted per keyword / per occurrence; error messages carry the position of the keyword or of the object's opener; Lark's line/column assumed, validated by the bounded seam"),
  "C09": dict(level="proof", pred=by("is_valid_for_version", "get_versioned_properties", "get_versioned_schema", "get_expanded_schema", "mappyfile.validator.Validator.validate", "mappyfile.cli.schema", "HistoryVersionedSchema"),
              e=["c09_tables"], b=["b_versions"], canaries=["version_lt", "cache_key"],
@@ -143,3 +143,7 @@ def run(prop, tier, seed, only=None):
                                e_checks=[table(t) for t in p.get("e", [])],
                                b_checks=[seam(b) for b in p.get("b", [])],
                                explanation=p["explanation"], only=only)
+
+
+# seams of the properties that have their own module (props/C03.py, props/C16.py), for tools/seed_sweep.py and tools/mkmanifest.py
+EXTRA_SEAMS = {"C03": ["b_reader", "b_numbers"], "C16": ["b_layout"]}
